@@ -22,6 +22,8 @@ pub struct Sink {
     pub profile: String,
     pub samples: Vec<String>,
     pub panics: u64,
+    /// inputs run through the implementation only to select which ones to log (never judged)
+    pub screened: u64,
     pub per_op: std::collections::BTreeMap<String, u64>,
     /// false while a dataflow program / quire history is in progress (no shard switch then)
     pub free: bool,
@@ -41,6 +43,7 @@ impl Sink {
             profile: profile.to_string(),
             samples: Vec::new(),
             panics: 0,
+            screened: 0,
             per_op: Default::default(),
             free: true,
         }
